@@ -320,6 +320,7 @@ pub fn run(tier: Tier) -> Report {
             crate::fam::redundant_twins(&mut |g| push(g));
             crate::fam::deep_shapes(&mut |g| push(g));
             crate::fam::kind_twins(&mut |g| push(g));
+            crate::fam::described_twins(&mut |g| push(g));
             crate::fam::fallback_only_words(&mut |g| push(g));
             crate::fam::loop_segments(&["a", "b"], tier.pick(4, 4), &mut |g| push(g));
             for n in 2..=5 {
